@@ -65,6 +65,8 @@ def run(prog, chk):
     from props import C04 as _C04
     chk.rule(_C04.formatter_trims_one_character_class_at_a_time, prog, chk)  # what is written is the computed number: its integer digits survive the formatter
     chk.rule(strops.check_number_formatting, prog, chk)  # results are exact up to the 3-decimal *output* rounding  # A14.str-ops: how this property's strings are cut up is a reviewed, frozen inventory
+    from props import C03 as _C03
+    chk.rule(_C03.graphics_vocabulary, prog, chk)  # each of rect / circle / ellipse / line is laid out also when written with a separate end tag
 
 
 def _arms(owner):
